@@ -950,7 +950,7 @@ def c12(tier):
     merge(ck, common.pmap(capc.default_caps_worker, [{'grammars': [g.to_json() for g in c]} for c in chunks(gs, 8)] + [{'grammars': [g.to_json()]} for g in ncw]))
     merge(ck, common.pmap(capc.beyond_cap_worker, [{'grammar': g.to_json()} for g in beyond] + [{'grammar': gg.shuffle_symbols(g, rnd).to_json()} for g in capc.beyond_cap_witnesses()]))
     # (3) user limits at need-1 / need / need+1
-    lg = [g for g in gen_grammars('C12b', tier, 60 if q else 600, 'plain') if ref_lr1.build(g).lr1 and 4 <= len(ref_lr1.build(g).states) <= 40]
+    lg = [g for g in gen_grammars('C12b', tier, 60 if q else 600, 'plain') if len(g.terms) <= 16 and ref_lr1.build(g).lr1 and 4 <= len(ref_lr1.build(g).states) <= 40]      # (run-time construction of every variant: small analysers only)
     rnd.shuffle(lg)
     from .grammar import simple
     lg = [simple('S->X t\nX->A B\nB->t | eps\nA->a | b | c | d | e | f | g | h'), simple('S->L\nL->eps | L I\nI->a O | b O\nO->eps | o')] + lg      # per-item closure tables next to the per-state cap
